@@ -83,6 +83,19 @@ def translate_ref(seq, table):
     return "".join(out)
 
 
+def consistent_frames_of(exons, sn, start):
+    """the frame vector of one uninterrupted reading frame that starts with offset `start` at the 5' end"""
+    order = list(range(len(exons)))
+    if sn == "MINUS":
+        order.reverse()
+    fr = {}
+    before = -start
+    for j, i in enumerate(order):
+        fr[i] = start if j == 0 else before % 3
+        before += exons[i][1] - exons[i][0]
+    return [fr[i] for i in range(len(exons))]
+
+
 def mk_cds(it, exons, strand, frames, parent):
     F = it.enum("CDSFrame")
     names = {0: "ZERO", 1: "ONE", 2: "TWO"}
@@ -210,6 +223,31 @@ def _case(repo, it, S, spec):
         got = [loc_positions(c) for c in v]
         if got != wantw:
             out.append((wkey, f"{desc}: scan_chromosome_codon_locations({ws},{we}) = {got}; codons of the reading frame inside the window: {wantw}", q("scan_chromosome_codon_locations").qual))
+        # the documented flag: a codon cut by a window edge is retained whole
+        n += 1
+        k, v = run(it, q("scan_chromosome_codon_locations"), [ws, we], {"expand_window_to_partial_codons": True}, mk_cds(it, exons, S[sn], frames, par))
+        wante = [c for c in want if any(a <= p < b for p in c)]
+        consistent = list(frames) == consistent_frames_of(exons, sn, first_frame)
+        ekey = (f"expanded codon window [{'single' if len(exons) == 1 else 'multi'}-exon, start frame "
+                f"{'0' if first_frame == 0 else 'nonzero'}, {'one reading frame' if consistent else 'annotated frameshift'}]")
+        if k != "ok":
+            if wante:
+                out.append((ekey + " raises", f"{desc}: scan_chromosome_codon_locations({ws},{we}, expand_window_to_partial_codons=True) raises {v}; "
+                            f"codons touching the window: {wante}", q("_expand_coordinates_to_codons").qual))
+            continue
+        got = [loc_positions(c) for c in v]
+        if got != wante:
+            out.append((ekey, f"{desc}: scan_chromosome_codon_locations({ws},{we}, expand_window_to_partial_codons=True) = {got}; the codons of the "
+                        f"reading frame with a base inside the window are {wante}", q("_expand_coordinates_to_codons").qual))
+    # the deprecated spelling answers like the chunk-relative scan without a window
+    n += 1
+    k1, v1 = run(it, q("scan_codon_locations"), [], {}, mk_cds(it, exons, S[sn], frames, par))
+    k2, v2 = run(it, q("scan_chunk_relative_codon_locations"), [], {}, mk_cds(it, exons, S[sn], frames, par))
+    g1 = [loc_positions(c) for c in v1] if k1 == "ok" else v1
+    g2 = [loc_positions(c) for c in v2] if k2 == "ok" else v2
+    if (k1, g1) != (k2, g2):
+        out.append(("scan_codon_locations (deprecated spelling)", f"{desc}: scan_codon_locations() -> {k1}:{g1}; scan_chunk_relative_codon_locations() "
+                    f"-> {k2}:{g2}", q("scan_codon_locations").qual))
     return n, out
 
 
